@@ -43,7 +43,7 @@ case "$PROP:$TIER" in
   C19:quick) ARGS="-len 2";;
   C19:*) ARGS="-len 3";;
   C20:quick) ARGS="-depth 2 -vlen 2 -reps 5";;
-  C20:*) ARGS="-depth 2 -vlen 3 -vlen2 1 -reps 40";;
+  C20:*) ARGS="-depth 2 -vlen 3 -vlen2 1 -reps 40 -bigreps 300";;
   *) ARGS="";;
 esac
 S=$(mktemp -d /var/tmp/bounded.XXXXXX)
